@@ -13,52 +13,66 @@ Inductive kind := KPot | KFlow | KPar.   (* no prefix / input / output ; flow ; 
 Global Instance kind_eq_dec : EqDecision kind.
 Proof. solve_decision. Defined.
 
-Notation var := (list positive).               (* flattened name "a.p.i" = [a; p; i] *)
-Notation key := (list positive * bool)%type.   (* (flattened flow variable name, inside?)  tree.py:1082-1101 *)
-Notation cmapT := (gmap key (gset key)).
-Notation row := (list (var * Z)).              (* linear equation  sum c*v = 0 *)
-Notation cvars := (list (positive * kind)).    (* connector class: variable names with kind, in order *)
-Notation fclause := ((var * bool) * (var * bool) * cvars)%type.   (* flattened connect clause *)
+(* How flattened names are built is a parameter: Sg = name segment (identifier), N = flattened
+   name.  Two instances: structured paths (N = list Sg, below) and dot-joined strings
+   (Proofs/C09_names.v).  nm = name of an instance path (tree.py:576-581 instance_prefix + name,
+   735-746), ext = name + CLASS_SEPARATOR + variable (tree.py:1064-1065). *)
+Class Naming (Sg N : Type) := { nm : list Sg → N; ext : N → Sg → N }.
+Global Instance path_naming {Sg : Type} : Naming Sg (list Sg) :=
+  {| nm := fun p => p; ext := fun p x => p ++ [x] |}.   (* "a.p.i" = [a; p; i] *)
 
 (* ---- hierarchical input: what the parser hands to flatten ---- *)
-Inductive cref := CRef (comp : option positive) (conn : positive).   (* x  |  c.x *)
-Record clause := Clause { c_l : cref; c_r : cref; c_vars : cvars }.
-Inductive inst :=
-  Inst (decl : list (positive * cvars))     (* connectors declared directly in this class *)
-       (subs : list (positive * inst))      (* components of model type *)
-       (cl : list clause).                  (* connect clauses of this class, in order *)
+Inductive cref (Sg : Type) := CRef (comp : option Sg) (conn : Sg).   (* x  |  c.x *)
+Arguments CRef {Sg} comp conn.
+Record clause (Sg : Type) := Clause { c_l : cref Sg; c_r : cref Sg; c_vars : list (Sg * kind) }.
+Arguments Clause {Sg} c_l c_r c_vars.
+Arguments c_l {Sg} c. Arguments c_r {Sg} c. Arguments c_vars {Sg} c.
+Inductive inst (Sg : Type) :=
+  Inst (decl : list (Sg * list (Sg * kind)))   (* connectors declared directly in this class *)
+       (subs : list (Sg * inst Sg))            (* components of model type *)
+       (cl : list (clause Sg)).                (* connect clauses of this class, in order *)
+Arguments Inst {Sg} decl subs cl.
+
+Section Model.
+Context {Sg N : Type} `{Countable N} `{!Naming Sg N}.
+Local Notation var := N.                       (* flattened name *)
+Local Notation key := (N * bool)%type.         (* (flattened flow variable name, inside?)  tree.py:1082-1101 *)
+Local Notation cmapT := (gmap key (gset key)).
+Local Notation row := (list (var * Z)).        (* linear equation  sum c*v = 0 *)
+Local Notation cvars := (list (Sg * kind)).    (* connector class: variable names with kind, in order *)
+Local Notation fclause := ((var * bool) * (var * bool) * cvars)%type.   (* flattened connect clause *)
 
 (* tree.py:672-679: names are prefixed with the instance path; a reference with a child part
    (c.x) is an inside connector, a plain name an outside connector *)
-Definition flat_ref (pre : list positive) (r : cref) : var * bool :=
+Definition flat_ref (pre : list Sg) (r : cref Sg) : var * bool :=
   match r with
-  | CRef None x => (pre ++ [x], false)
-  | CRef (Some c) x => (pre ++ [c; x], true)
+  | CRef None x => (nm (pre ++ [x]), false)
+  | CRef (Some c) x => (nm (pre ++ [c; x]), true)
   end.
 
-Definition flat_clause (pre : list positive) (c : clause) : fclause :=
+Definition flat_clause (pre : list Sg) (c : clause Sg) : fclause :=
   (flat_ref pre (c_l c), flat_ref pre (c_r c), c_vars c).
 
 (* tree.py:629-641 then 667-673: equations of the sub-components first (symbol order), then own *)
-Fixpoint flat_clauses (pre : list positive) (i : inst) : list fclause :=
+Fixpoint flat_clauses (pre : list Sg) (i : inst Sg) : list fclause :=
   match i with
   | Inst _ subs cl =>
-      (fix go (l : list (positive * inst)) : list fclause :=
+      (fix go (l : list (Sg * inst Sg)) : list fclause :=
          match l with
          | [] => []
          | (n, s) :: l' => flat_clauses (pre ++ [n]) s ++ go l'
          end) subs ++ map (flat_clause pre) cl
   end.
 
-Definition flows_of (pre : list positive) (d : positive * cvars) : list var :=
-  omap (fun v : positive * kind => if decide (v.2 = KFlow) then Some (pre ++ [d.1; v.1]) else None) d.2.
+Definition flows_of (pre : list Sg) (d : Sg * cvars) : list var :=
+  omap (fun v : Sg * kind => if decide (v.2 = KFlow) then Some (ext (nm (pre ++ [d.1])) v.1) else None) d.2.
 
 (* tree.py:1005-1008: every symbol of the flat class with a flow prefix *)
-Fixpoint flat_flows (pre : list positive) (i : inst) : list var :=
+Fixpoint flat_flows (pre : list Sg) (i : inst Sg) : list var :=
   match i with
   | Inst decl subs _ =>
       flat_map (flows_of pre) decl ++
-      (fix go (l : list (positive * inst)) : list var :=
+      (fix go (l : list (Sg * inst Sg)) : list var :=
          match l with
          | [] => []
          | (n, s) :: l' => flat_flows (pre ++ [n]) s ++ go l'
@@ -78,9 +92,9 @@ Definition connect_flow (m : cmapT) (l r : key) : cmapT :=
 Definition pot_row (a b : var) : row := [(a, 1%Z); (b, (-1)%Z)].
 
 (* tree.py:1063-1128, one connector variable of one clause *)
-Definition step_var (L R : var * bool) (s : st) (v : positive * kind) : st :=
-  let ln := L.1 ++ [v.1] in
-  let rn := R.1 ++ [v.1] in
+Definition step_var (L R : var * bool) (s : st) (v : Sg * kind) : st :=
+  let ln := ext L.1 v.1 in
+  let rn := ext R.1 v.1 in
   match v.2 with
   | KPot => St (fc s) (disc s) (eqs s ++ [pot_row ln rn])                     (* 1074-1079 *)
   | KFlow => St (connect_flow (fc s) (ln, L.2) (rn, R.2))                     (* 1080-1112 *)
@@ -116,7 +130,7 @@ Definition expand (flows : list var) (cs : list fclause) : list row :=
   let s := run_clauses flows cs in
   eqs s ++ map sum_row (sets_of (fc s)) ++ map zero_row (disc s).
 
-Definition model_rows (i : inst) : list row := expand (flat_flows [] i) (flat_clauses [] i).
+Definition model_rows (i : inst Sg) : list row := expand (flat_flows [] i) (flat_clauses [] i).
 
 (* ---- observation used by the correspondence check ----
    rows are compared as multisets of canonical linear forms (like terms collected, zero
@@ -131,9 +145,10 @@ Definition cnt (x : gmap var Z) (l : list (gmap var Z)) : nat :=
 Definition same_multiset (l1 l2 : list (gmap var Z)) : bool :=
   bool_decide (length l1 = length l2) && forallb (fun x => bool_decide (cnt x l1 = cnt x l2)) l1.
 
-Definition check_case (c : inst * list row) : bool :=
+Definition check_case (c : inst Sg * list row) : bool :=
   same_multiset (map canon_row (model_rows c.1)) (map canon_row c.2).
 
 (* the classes and signs themselves, for diagnostics *)
-Definition model_sets (i : inst) : list (list key) :=
+Definition model_sets (i : inst Sg) : list (list key) :=
   map elements (sets_of (fc (run_clauses (flat_flows [] i) (flat_clauses [] i)))).
+End Model.
